@@ -39,7 +39,8 @@ def run(tier):
     big = [["recon-x", "--grid", 120 if q else 1, "--nbhd", 120 if q else 3600, "--pygrid", pyg],
            ["recon-b", "--grid", 120 if q else 1, "--nbhd", 120 if q else 3600, "--pygrid", pyg],
            ["tz2025b", "--grid", 120 if q else 1, "--nbhd", 120 if q else 3600, "--pygrid", pyg],
-           ["features", "--grid", 30 if q else 1, "--nbhd", 120 if q else 3600, "--pygrid", 86400 if q else 6 * 3600 + 1800]]
+           ["features", "--grid", 30 if q else 1, "--nbhd", 120 if q else 3600, "--pygrid", 86400 if q else 6 * 3600 + 1800],
+           ["unsupported", "--grid", 30 if q else 1, "--nbhd", 120 if q else 3600, "--pygrid", 86400 if q else 6 * 3600 + 1800]]
     if not q:
         big.append(["tz2025b-raw", "--grid", 5])
         big.append(["recon-x", "--grid", 60, "--nbhd", 30, "--san", "--targets", "arduino"])
@@ -84,7 +85,9 @@ def run(tier):
         "distinct_nontrivial": int(stats.get("py.segments_crossed", 0) + stats.get("ar.sweep.segments_crossed", 0)),
         "rule": "programs = TZ sources: (1) the Zone/Rule/Link lines recorded beside the shipped zonedb and zonedbx tables (2020d), "
                 "(1b) a hand-written source exercising features real data rarely shows after 2000 (seconds in UNTIL/AT/STDOFF, fixed SAVE, "
-                "multi-character letters, 24:00/25:00, names with +/-), (2) the real tzdata 2025b release expanded lexically from zic's compact dialect with %%z rewritten the way tzdata's "
+                "multi-character letters, 24:00/25:00, names with +/-, an era altered by two passes), (1c) a hand-written source of constructs zic accepts and the compiler "
+                "documents as unsupported (negative AT/UNTIL, AT/UNTIL beyond 25:00, SAVE too large, two transitions in a month, Jan Sun<=1, name without '/', "
+                "weekday UNTIL day, links to such zones): each must be emitted-and-correct or removed with a reason, never kill the compiler, (2) the real tzdata 2025b release expanded lexically from zic's compact dialect with %%z rewritten the way tzdata's "
                 "rearguard does (zic output byte-identical before/after%s), (3) %d seed-driven mutants of 9..29 zones (AT/UNTIL times "
                 "incl. 24:00/25:00 and s/u/g/z suffixes, ON forms, FROM/TO, SAVE -1:00..2:45, letters, STDOFF steps, era splits, "
                 "added/removed rules, fixed SAVE, link retargeting; year ranges 2000..2050 / 2000..2038 / 2010..2030). Each "
@@ -92,7 +95,8 @@ def run(tier):
                 "conservation contract on every Transformer pass, emitted zones are executed by the Python ZoneSpecifier (every zic "
                 "breakpoint -60/-1/0/+59 s, year boundaries, a coarse grid) and, as generated C++ tables compiled in their own "
                 "namespace, by the Basic/Extended processors (grid + second-level neighbourhoods), and compared with zic -b fat on "
-                "the same text; every input zone/link must be emitted or listed as removed with a reason; sources zic rejects are "
+                "the same text; every input zone/link must be emitted or listed as removed with a reason; every emitted UNTIL/STDOFF/AT/SAVE value that differs from "
+                "its source line must carry a note naming that source value; sources zic rejects are "
                 "discarded (%d here). distinct = distinct (zone, zic segment) pairs crossed." % (
                     "" if q else "; plus the raw release", nmut, rejected),
         "samples": samples,
